@@ -6,6 +6,7 @@ import (
 	"io"
 	"os"
 	"path/filepath"
+	"time"
 
 	"github.com/q191201771/lal/pkg/base"
 	"github.com/q191201771/lal/pkg/httpflv"
@@ -30,6 +31,9 @@ type flvScenario struct {
 	Mode  string    `json:"mode"`
 	Steps []flvStep `json:"steps"`
 	Lens  []int     `json:"lens"`
+	// Queued: the session writes through lal's asynchronous write queue (the production default, 1024 elements) and the
+	// peer takes nothing until every element is queued
+	Queued bool `json:"queued"`
 }
 
 func init() { Registry["flv"] = flvDriver }
@@ -149,17 +153,33 @@ func flvSession(sc *flvScenario, tw *TraceWriter, tmp string) {
 	}
 	var tags []sent
 	opened, hdr := false, false
+	var release chan struct{}
+	nwrites := 0
 	for i, st := range sc.Steps {
 		switch st.Name {
 		case "Open":
 			opened = true
 			if sc.Mode == "file" {
+				if sc.Sc%2 == 1 {
+					// the path holds an older, longer recording (a stream published again under the same name
+					// within one second): nothing of it may survive in the new file
+					old := bytes.Repeat([]byte{0x09, 0x00, 0x00, 0x05, 0x33}, 60000)
+					_ = os.WriteFile(fname, old, 0644)
+				}
 				ffw.Open(fname)
 			} else {
 				conn = NewMemConn("flv")
+				if sc.Queued {
+					release = make(chan struct{})
+					rel := release
+					conn.Gate = func(int) error { <-rel; return nil }
+					httpflv.SubSessionWriteChanSize = 1024
+				}
 				u, _ := base.ParseUrl("http://h/live/s.flv", 80)
 				sess = httpflv.NewSubSession(conn, u, sc.Mode == "ws", "dGhlIHNhbXBsZSBub25jZQ==")
+				httpflv.SubSessionWriteChanSize = 0
 				sess.WriteHttpResponseHeader()
+				nwrites++
 			}
 		case "Hdr":
 			hdr = true
@@ -167,6 +187,7 @@ func flvSession(sc *flvScenario, tw *TraceWriter, tmp string) {
 				ffw.WriteFlvHeader()
 			} else {
 				sess.WriteFlvHeader()
+				nwrites++
 			}
 		case "Tag":
 			payload := proj.Payload(i+1, st.N)
@@ -177,6 +198,7 @@ func flvSession(sc *flvScenario, tw *TraceWriter, tmp string) {
 				ffw.WriteTag(tag)
 			} else {
 				sess.Write(raw)
+				nwrites++
 			}
 		}
 	}
@@ -189,6 +211,13 @@ func flvSession(sc *flvScenario, tw *TraceWriter, tmp string) {
 		stream, _ = os.ReadFile(fname)
 		os.Remove(fname)
 	} else if opened {
+		if release != nil {
+			// everything is queued: let the peer read, and wait until the queue has been written out
+			close(release)
+			for t0 := time.Now(); conn.Units() < nwrites && time.Since(t0) < 10*time.Second; {
+				time.Sleep(200 * time.Microsecond)
+			}
+		}
 		out, _ := conn.Drain()
 		k := bytes.Index(out, []byte("\r\n\r\n"))
 		if k < 0 {
